@@ -271,10 +271,8 @@ def load_known(path=None):
 
 def finish(ctx, seed=0, evidence_dir=None, explanation="", technique="", quiet=False):
     """Vacuity check, known-finding split, evidence, exit code."""
-    for rid, n in ctx.rule_sites.items():
-        if n < ctx.rule_min[rid] and not os.environ.get("LXS_DEV_NO_MIN"):
-            raise AnalysisError(f"rule {rid} matched {n} sites, fewer than the {ctx.rule_min[rid]} "
-                                f"confirmed by hand: the rule would pass vacuously")
+    vacuous = [f"rule {rid} matched {n} sites, fewer than the {ctx.rule_min[rid]} confirmed by hand: the rule would pass vacuously"
+               for rid, n in ctx.rule_sites.items() if n < ctx.rule_min[rid] and not os.environ.get("LXS_DEV_NO_MIN")]
     known, fixed = load_known()
     viols, kf = [], []
     vseen = set()
@@ -284,7 +282,13 @@ def finish(ctx, seed=0, evidence_dir=None, explanation="", technique="", quiet=F
         elif (f.key, f.detail) not in vseen:          # one report per construct, however many paths reach it
             vseen.add((f.key, f.detail))
             viols.append(f)
+    # a rule that lost sites cannot vouch for the property (exit 2) -- unless something else is already a definite violation,
+    # which is reported as such (the construct that made the sites vanish is usually the one that is reported)
+    if vacuous and not viols:
+        raise AnalysisError(vacuous[0])
     out = []
+    for v in vacuous:
+        out.append(f"  note: {v}")
     seen = set()
     for f, e in kf:
         if f.key in seen:
